@@ -55,16 +55,16 @@ class DetectVarNames( ast.NodeVisitor ):
       elif isinstance( lower, ast.Name ):
         x = lower.id
         if   x in self.locals:  pass
-        elif x in self.globals: low = (False, x)
         elif x in self.closure: low = (True, x)
+        elif x in self.globals: low = (False, x)
 
       if isinstance( upper, ast.Num ):
         up = node.slice.upper.n
       elif isinstance( upper, ast.Name ):
         x = upper.id
         if   x in self.locals:  pass
-        elif x in self.globals: up = (False, x)
         elif x in self.closure: up = (True, x)
+        elif x in self.globals: up = (False, x)
 
       if low is not None and up is not None:
         slices.append( slice(low, up) )
@@ -88,8 +88,8 @@ class DetectVarNames( ast.NodeVisitor ):
         elif isinstance( v, ast.Name ):
           x = v.id
           if   x in self.locals:  pass
-          elif x in self.globals: n = (False, x)
           elif x in self.closure: n = (True, x)
+          elif x in self.globals: n = (False, x)
         elif isinstance( v, ast.Call ): # int(x)
           for x in v.args:
             self.visit(x)
@@ -161,16 +161,16 @@ class DetectVarNames( ast.NodeVisitor ):
       elif isinstance( lower, ast.Name ):
         x = lower.id
         if   x in self.locals:  pass
-        elif x in self.globals: low = (False, x)
         elif x in self.closure: low = (True, x)
+        elif x in self.globals: low = (False, x)
 
       if isinstance( upper, ast.Num ):
         up = node.slice.upper.n
       elif isinstance( upper, ast.Name ):
         x = upper.id
         if   x in self.locals:  pass
-        elif x in self.globals: up = (False, x)
         elif x in self.closure: up = (True, x)
+        elif x in self.globals: up = (False, x)
 
       if low is not None and up is not None:
         slices.append( slice(low, up) )
@@ -194,8 +194,8 @@ class DetectVarNames( ast.NodeVisitor ):
         elif isinstance( v, ast.Name ):
           x = v.id
           if   x in self.locals:  pass
-          elif x in self.globals: n = (False, x)
           elif x in self.closure: n = (True, x)
+          elif x in self.globals: n = (False, x)
         elif isinstance( v, ast.Call ): # int(x)
           for x in v.args:
             self.visit(x)
